@@ -628,6 +628,7 @@ class Program:
                     if t["k"] == "call":
                         for w in place_write_targets(f, t["dest"]):
                             r.setdefault(w, []).append((bi, t.get("sp"), "calldest"))
+                _fold_fieldwise_overwrites(self, f, r)
             self._writes_direct[key] = r
         return r
 
@@ -640,6 +641,49 @@ class Program:
                 r.update(self.writes_direct(k).keys())
             self._writes_trans[key] = r
         return r
+
+
+def _fold_fieldwise_overwrites(prog, f, r):
+    """A body that assigns *every* field of a struct (padding excepted) one by one overwrites the whole value: for the who-may-write rules
+    that is the same as `*x = X { .. }`.  The field-wise entries are replaced by one whole-value ('*') entry, so `reset in place` and
+    `reset by assignment` are one writer class.  A body that leaves a field out is not a reset and keeps its field-wise entries."""
+    owners = {}
+    for (o, n), sites in r.items():
+        if n.startswith("=") and any(k == "assign" for (_, _, k) in sites):
+            owners.setdefault(o, set()).add(n[1:])
+    for o, got in owners.items():
+        a = prog.adts.get(o)
+        if not a or a.get("is_enum") or not a.get("variants"):
+            continue
+        names = [fl["name"] for fl in a["variants"][0]["fields"]]
+        need = {n for n in names if not n.startswith("_pad")}
+        if len(need) < 3 or not need <= got:
+            continue
+        # only an unconditional reset counts: every field store lies on every path to a return (conditional `set_if_some!`-style
+        # updates that happen to cover all fields are not an overwrite)
+        rets = [i for i, bb in enumerate(f.blocks) if bb["t"]["k"] == "return"]
+        from . import analysis as _A
+        errb = set(_A.error_blocks(f))          # success paths only: an early `return Err(..)` before the reset does not make it conditional
+        uncond = True
+        for n in need:
+            blocks = {b for (b, _, k) in r[(o, "=" + n)] if k == "assign"}
+            reach = f.reachable(0, blocks | errb) if 0 not in blocks else set()
+            if any(x in reach for x in rets):
+                uncond = False
+                break
+        if not uncond:
+            continue
+        first = min(b for n in need for (b, _, k) in r[(o, "=" + n)] if k == "assign")
+        sp = next(sp for (b, sp, k) in sum((r[(o, "=" + n)] for n in need), []) if b == first)
+        for n in names:
+            for key in ((o, n), (o, "=" + n)):
+                if key in r:
+                    rest = [x for x in r[key] if x[2] != "assign"]
+                    if rest:
+                        r[key] = rest
+                    else:
+                        del r[key]
+        r.setdefault((o, "*"), []).append((first, sp, "assign"))
 
 
 def place_write_targets(f, pl, borrow=False):
